@@ -24,9 +24,23 @@ fn iter_apis(r: &Runner) -> Vec<Api> {
 
 const NEEDLES: [u8; 3] = [b'x', 0x80, 0xFF];
 
+/// Needle triples for iterator histories, including duplicated needles
+/// (`memchr2_iter(x, x, ..)`, `memchr3_iter(x, y, x, ..)`).
+const NEEDLE_SETS: [[u8; 3]; 5] = [
+    [b'x', 0x80, 0xFF],
+    [b'x', b'x', 0xFF],
+    [b'x', 0x80, b'x'],
+    [b'x', b'x', b'x'],
+    [0x00, 0x80, 0x80],
+];
+
 /// haystack with needle bytes exactly at `positions` (rotating through the
 /// first `n` needles), filler elsewhere
 fn hay_with(buf: &mut Vec<u8>, len: usize, positions: &[usize], n: usize) {
+    hay_with_set(buf, len, positions, n, &NEEDLES)
+}
+
+fn hay_with_set(buf: &mut Vec<u8>, len: usize, positions: &[usize], n: usize, nd: &[u8; 3]) {
     buf.clear();
     for i in 0..len {
         buf.push(match i % 3 {
@@ -36,7 +50,7 @@ fn hay_with(buf: &mut Vec<u8>, len: usize, positions: &[usize], n: usize) {
         });
     }
     for (k, &p) in positions.iter().enumerate() {
-        buf[p] = NEEDLES[k % n];
+        buf[p] = nd[k % n];
     }
 }
 
@@ -81,11 +95,20 @@ pub fn byte_iters(r: &mut Runner) {
                 if r.tier != Tier::Thorough && (unit + api.code()) % 3 != 0 && len > 6 {
                     continue;
                 }
-                hay_with(&mut buf, len, &pos, api.n as usize);
+                let nset = NEEDLE_SETS[((unit / 3 + api.code()) % NEEDLE_SETS.len() as u64) as usize];
+                hay_with_set(&mut buf, len, &pos, api.n as usize, &nset);
                 for bits in 0u64..(1 << oplen) {
                     ops_from_bits(bits, oplen, &mut ops);
-                    r.run(api, &buf, &NEEDLES, [0; 4], &ops, place, Place::Heap, len > 0);
+                    r.run(api, &buf, &nset, [0; 4], &ops, place, Place::Heap, len > 0);
                 }
+                // the same subset under every other needle set (duplicated
+                // needles), one alternating history each
+                for (si, ns) in NEEDLE_SETS.iter().enumerate() {
+                    hay_with_set(&mut buf, len, &pos, api.n as usize, ns);
+                    ops_from_bits(0xAAAA_AAAA_AAAA_AAAAu64 >> (si % 2), oplen, &mut ops);
+                    r.run(api, &buf, ns, [0; 4], &ops, place, Place::Heap, len > 0);
+                }
+                hay_with_set(&mut buf, len, &pos, api.n as usize, &nset);
                 // one variant with count-on-clone after every step and a
                 // continue-on-clone in the middle
                 let mut o2 = Vec::new();
@@ -96,7 +119,7 @@ pub fn byte_iters(r: &mut Runner) {
                         o2.push(b'c');
                     }
                 }
-                r.run(api, &buf, &NEEDLES, [0; 4], &o2, place, Place::Heap, len > 0);
+                r.run(api, &buf, &nset, [0; 4], &o2, place, Place::Heap, len > 0);
             }
             if r.stop() {
                 return;
@@ -185,13 +208,14 @@ fn byte_iters_boundary(r: &mut Runner, apis: &[Api], nsets: u64, maxm: usize) {
             if (s + api.code()) % 2 != 0 && r.tier != Tier::Thorough {
                 continue;
             }
-            hay_with(&mut buf, len, &pos, api.n as usize);
+            let nset = NEEDLE_SETS[((s + api.code() / 7) % NEEDLE_SETS.len() as u64) as usize];
+            hay_with_set(&mut buf, len, &pos, api.n as usize, &nset);
             for bits in 0u64..(1 << oplen) {
                 ops_from_bits(bits, oplen, &mut ops);
                 ops.push(b'k');
                 ops.push(b'n');
                 ops.push(b'b');
-                r.run(api, &buf, &NEEDLES, [0; 4], &ops, place, Place::Heap, true);
+                r.run(api, &buf, &nset, [0; 4], &ops, place, Place::Heap, true);
             }
             if r.stop() {
                 return;
